@@ -340,3 +340,28 @@ func RefVerifyS(pk *gabikeys.PublicKey, ps *gabi.ProofS, sig *gabi.CLSignature, 
 	}
 	return HashCommit([]*big.Int{context, q, sig.A, nonce, ac}, false).Cmp(ps.C) == 0
 }
+
+// ---------------------------------------------------------------------------------------------
+
+// Prover is a two-move prover usable in a jointly challenged list.
+type Prover interface {
+	Commit() []*big.Int
+	RespondProof(c *big.Int) gabi.Proof
+}
+
+func (p *DProver) RespondProof(c *big.Int) gabi.Proof { return p.Respond(c) }
+func (p *UProver) RespondProof(c *big.Int) gabi.Proof { return p.Respond(c) }
+
+// ProveList runs the provers under one reference challenge.
+func ProveList(provers []Prover, context, nonce *big.Int, issig bool) (gabi.ProofList, *big.Int) {
+	var contrib []*big.Int
+	for _, p := range provers {
+		contrib = append(contrib, p.Commit()...)
+	}
+	c := Challenge(context, nonce, contrib, issig)
+	var out gabi.ProofList
+	for _, p := range provers {
+		out = append(out, p.RespondProof(c))
+	}
+	return out, c
+}
